@@ -7,6 +7,7 @@ import (
 	"github.com/glebziz/fs_db"
 	"github.com/glebziz/fs_db/internal/model"
 	"github.com/glebziz/fs_db/internal/utils/ptr"
+	"github.com/glebziz/fs_db/internal/verifhook"
 )
 
 func (u *UseCase) Commit(ctx context.Context) error {
@@ -16,6 +17,7 @@ func (u *UseCase) Commit(ctx context.Context) error {
 		return fmt.Errorf("tx repository delete: %w", err)
 	}
 
+	verifhook.At("commit.afterRegDelete")
 	var filter model.FileFilter
 	switch tx.IsoLevel {
 	case fs_db.IsoLevelReadUncommitted,
